@@ -18,6 +18,7 @@ struct Report {
    name: String,
    carrier: usize,
    pairs: u64,
+   distinct_pairs: u64,
    triples: u64,
    viol: Vec<(String, String)>,
    exhaustive_triples: bool,
@@ -34,10 +35,13 @@ impl Report {
 fn leq<T: PartialOrd>(a: &T, b: &T) -> bool { matches!(a.partial_cmp(b), Some(Ordering::Less) | Some(Ordering::Equal)) }
 
 fn check<T: Lattice + Clone + PartialEq + Debug>(name: &str, carrier: Vec<T>, rng: &mut Rng, triple_budget: u64) -> Report {
-   let mut r = Report { name: name.into(), carrier: carrier.len(), pairs: 0, triples: 0, viol: vec![], exhaustive_triples: false };
+   let mut r = Report { name: name.into(), carrier: carrier.len(), pairs: 0, distinct_pairs: 0, triples: 0, viol: vec![], exhaustive_triples: false };
    for a in &carrier {
       for b in &carrier {
          r.pairs += 1;
+         if a != b {
+            r.distinct_pairs += 1;
+         }
          let res = catch_unwind(AssertUnwindSafe(|| {
             let mut fails: Vec<(&str, String)> = vec![];
             let j = a.clone().join(b.clone());
@@ -172,10 +176,11 @@ fn check_dual<T: Lattice + Clone + PartialEq + Debug>(r: &mut Report, carrier: &
 
 fn emit(r: &Report) {
    println!(
-      "{{\"type\":\"{}\",\"carrier\":{},\"pairs\":{},\"triples\":{},\"exhaustive_triples\":{},\"violations\":{}}}",
+      "{{\"type\":\"{}\",\"carrier\":{},\"pairs\":{},\"pairs_with_distinct_elements\":{},\"triples\":{},\"exhaustive_triples\":{},\"violations\":{}}}",
       json_escape(&r.name),
       r.carrier,
       r.pairs,
+      r.distinct_pairs,
       r.triples,
       r.exhaustive_triples,
       r.viol.len()
